@@ -60,6 +60,7 @@ type runLine struct {
 	Violations []Violation `json:"violations"`
 	Stats      RunStats    `json:"stats"`
 	Scenario   *Scenario   `json:"scenario,omitempty"`
+	EnumSize   int         `json:"enum_size,omitempty"` // size of the enumerated part of the index space (C11, C19)
 }
 
 func envInt(name string, def int64) int64 {
@@ -109,6 +110,12 @@ func execScenario(t *testing.T, sc *Scenario, i int64, keepScenario bool) (runLi
 		WallUs: time.Since(t0).Microseconds(), Violations: vs, Stats: Stats(h)}
 	if len(vs) > 0 || keepScenario {
 		line.Scenario = sc
+	}
+	switch sc.Prop {
+	case "C11":
+		line.EnumSize = C11EnumSize()
+	case "C19":
+		line.EnumSize = C19EnumSize()
 	}
 	return line, dirty || h.Aborted
 }
